@@ -57,6 +57,17 @@ Fixpoint split_slash (l : list tok) : list tok * option (list tok) :=
               else let '(a, b) := split_slash r in (t :: a, b)
   end.
 
+(* the four updateCorner calls of mangleCorners *)
+Definition corners4 (rs : rules) (tr : rtracker) (mk : nat -> rcorner) : rules * rtracker :=
+  let corner := fun (st : rules * rtracker) (c : nat) => update_corner (fst st) (snd st) c (mk c) in
+  corner (corner (corner (corner (rs, tr) 0%nat) 1%nat) 2%nat) 3%nat.
+
+(* "box.corners[i].secondToken = t" for the four corners *)
+Definition set_seconds (tr : rtracker) (f : nat -> tok) : rtracker :=
+  mkRT (fun c => match rt_corners tr c with
+                 | Some rc => if (c <? 4)%nat then Some (mkC (rc_first rc) (f c) (rc_us rc) (rc_idx rc) (rc_single rc)) else Some rc
+                 | None => None end) (rt_imp tr).
+
 (* borderRadius.mangleCorners *)
 Definition mangle_corners (rs : rules) (tr : rtracker) (d : bdecl) : rules * rtracker :=
   let tr := rreset_if_imp tr (b_imp d) in
@@ -71,42 +82,39 @@ Definition mangle_corners (rs : rules) (tr : rtracker) (d : bdecl) : rules * rtr
   | Some q1, last, _ =>
     let idx := (length rs - 1)%nat in
     let tt := fun t => if us_safe us then turn t else t in
-    let corner := fun (st : rules * rtracker) (c : nat) =>
-      update_corner (fst st) (snd st) c (mkC (tt (qnth q1 c)) (tt (qnth q1 c)) us idx false) in
-    let st := corner (corner (corner (corner (rs, tr) 0%nat) 1%nat) 2%nat) 3%nat in
+    let st := corners4 rs tr (fun c => mkC (tt (qnth q1 c)) (tt (qnth q1 c)) us idx false) in
     let tr2 :=
       match last with
-      | Some q2 =>
-        mkRT (fun c => match rt_corners (snd st) c with
-                       | Some rc => if (c <? 4)%nat then Some (mkC (rc_first rc) (tt (qnth q2 c)) (rc_us rc) (rc_idx rc) (rc_single rc)) else Some rc
-                       | None => None end) (rt_imp (snd st))
+      | Some q2 => set_seconds (snd st) (fun c => tt (qnth q2 c))
       | None => snd st
       end in
     rcompact_rules (fst st) tr2
   end.
 
+(* borderRadius.mangleCorner: the part after the token checks (tr is already reset for the importance of d) *)
+Definition mangle_corner_go (rs : rules) (tr : rtracker) (d : bdecl) (c : nat) (t1 : tok) (t2o : option tok) : rules * rtracker :=
+  let t2 := match t2o with Some t => t | None => t1 end in
+  let us := include_unit (include_unit USafe t1) t2 in
+  let idx := (length rs - 1)%nat in
+  let f := if us_safe us then turn t1 else t1 in
+  (* with one token the second radius is a copy taken BEFORE 0px is turned into 0 (as in the Go code) *)
+  let s := match t2o with Some t => if us_safe us then turn t else t | None => t1 end in
+  (* the declaration's tokens are rewritten in place; two equal radii are merged into one *)
+  let val := match t2o with
+             | None => [f]
+             | Some _ => if tok_eqb f s then [f] else [f; s]
+             end in
+  let rs := if leqb tok_eqb val (b_val d) then rs else set_nth idx (Some (mkB (b_key d) val (b_imp d))) rs in
+  let st := update_corner rs tr c (mkC f s us idx true) in
+  rcompact_rules (fst st) (snd st).
+
 (* borderRadius.mangleCorner *)
 Definition mangle_corner (rs : rules) (tr : rtracker) (d : bdecl) (c : nat) : rules * rtracker :=
   let tr := rreset_if_imp tr (b_imp d) in
   let reset := (rs, mkRT no_corners (rt_imp tr)) in
-  let go := fun (t1 : tok) (t2o : option tok) =>
-    let t2 := match t2o with Some t => t | None => t1 end in
-    let us := include_unit (include_unit USafe t1) t2 in
-    let idx := (length rs - 1)%nat in
-    let f := if us_safe us then turn t1 else t1 in
-    (* with one token the second radius is a copy taken BEFORE 0px is turned into 0 (as in the Go code) *)
-    let s := match t2o with Some t => if us_safe us then turn t else t | None => t1 end in
-    (* the declaration's tokens are rewritten in place; two equal radii are merged into one *)
-    let val := match t2o with
-               | None => [f]
-               | Some _ => if tok_eqb f s then [f] else [f; s]
-               end in
-    let rs := if leqb tok_eqb val (b_val d) then rs else set_nth idx (Some (mkB (b_key d) val (b_imp d))) rs in
-    let st := update_corner rs tr c (mkC f s us idx true) in
-    rcompact_rules (fst st) (snd st) in
   match b_val d with
-  | [t1] => if is_numeric t1 then go t1 None else reset
-  | [t1; t2] => if is_numeric t1 && is_numeric t2 then go t1 (Some t2) else reset
+  | [t1] => if is_numeric t1 then mangle_corner_go rs tr d c t1 None else reset
+  | [t1; t2] => if is_numeric t1 && is_numeric t2 then mangle_corner_go rs tr d c t1 (Some t2) else reset
   | _ => reset
   end.
 
